@@ -84,6 +84,12 @@ def check(ctx):
             raise AnalysisBroken('UCI handler %s_command not found' % h)
     entries = thread_entries(p)
     ctx.floor('C06.anchors.threads', len(entries), 1, 'thread constructions')
+    # the words a GUI sends during a search reach their own handlers
+    from rules.ucitab import uci_dispatch
+    loop_, disp = uci_dispatch(p)
+    for h in DURING_SEARCH:
+        ctx.ob('C06.R0.dispatch', h, disp.get(h) == h + '_command',
+               'the command word `%s` is dispatched to %s_command (reaches %s)' % (h, h, disp.get(h)), site=loop_.loc())
 
     t_search = set()
     for creator, node, entry in entries:
